@@ -4,7 +4,7 @@ namespace Model.C31.Gate
 
 /-- holds `pollWaitMu` -/
 def hold (t : Th) : Nat := match t.pc with
-  | .pPark _ | .pUnlock _ | .uUnlock | .aUnlock | .rPark _ | .rUnlock | .xUnlock => 1 | _ => 0
+  | .pPark _ | .pUnlock _ | .uUnlock _ | .aUnlock | .rPark _ | .rUnlock | .xUnlock => 1 | _ => 0
 /-- counted in the rebalance half of `pollWaitState` (after its `+= 1<<32`, before its `-= 1<<32`) -/
 def rcount (t : Th) : Nat := match t.pc with
   | .rPark _ | .rWait _ | .rWake _ | .rUnlock | .xLock => 1 | _ => 0
@@ -85,7 +85,7 @@ theorem inv_step (sh : Sh) (pre post : List Th) (t : Th) (sh' : Sh) (t' : Th) (b
   have il1 := ins_le pre; have il2 := ins_le post
   obtain ⟨pc, prog⟩ := t
   obtain ⟨z1, z2, z3, z4, z5⟩ := start_zero prog
-  obtain ⟨mu, pollers, rebal, corrupt, out, fill, viol⟩ := sh
+  obtain ⟨mu, pollers, rebal, corrupt, out, fill, viol, ep⟩ := sh
   cases mu <;> cases pc <;> simp only [stepT, pollerEnter, pollerRewake, rebalLoop] at hs
   all_goals (repeat' (split at hs))
   all_goals (try (exact absurd trivial ‹¬True›))
